@@ -711,11 +711,29 @@ pub fn batch_check_scalar(
 ) -> Outcome3 {
     let comms = comms_from(cs);
     let proofs: Vec<Proof<G1Affine>> = ps.iter().map(|p| p.to_proof()).collect();
+    batch_check_conv(ctx, rng, id, vks, vk, cs, &comms, qs, ev, ps, &proofs)
+}
+
+/// `batch_check_scalar` with the group-element forms supplied by the caller
+pub fn batch_check_conv(
+    ctx: &mut Ctx,
+    rng: &mut Rng,
+    id: &str,
+    vks: &VkS,
+    vk: &VerifierKey<G1Affine>,
+    cs: &[CommS],
+    comms: &[LC],
+    qs: &QuerySet<Fr>,
+    ev: &Evaluations<Fr, Fr>,
+    ps: &[ProofS],
+    proofs: &[Proof<G1Affine>],
+) -> Outcome3 {
+    let proofs: Vec<Proof<G1Affine>> = proofs.to_vec();
     let ngroups = crate::generic::group(qs).len();
     let rs = crate::kzg::replay_u128(rng, ps.len().max(ngroups) + 1);
     let mut sp = LogSponge::fresh();
     ro_clear();
-    let r = guarded(|| PC::batch_check(vk, &comms, qs, ev, &proofs, &mut sp, rng));
+    let r = guarded(|| PC::batch_check(vk, comms, qs, ev, &proofs, &mut sp, rng));
     let (ros, _) = ro_take();
     let xis = sp.challenges();
     let (out, o3) = match r {
@@ -745,6 +763,11 @@ pub fn batch_check_scalar(
 /// reference for C05): `Accept` iff all accept, `Refuse` if some call errs/aborts before a reject
 pub fn individual_checks(vk: &VerifierKey<G1Affine>, cs: &[CommS], qs: &QuerySet<Fr>, ev: &Evaluations<Fr, Fr>, ps: &[ProofS]) -> Outcome3 {
     let comms = comms_from(cs);
+    let proofs: Vec<Proof<G1Affine>> = ps.iter().map(|p| p.to_proof()).collect();
+    individual_checks_conv(vk, &comms, qs, ev, &proofs)
+}
+
+pub fn individual_checks_conv(vk: &VerifierKey<G1Affine>, comms: &[LC], qs: &QuerySet<Fr>, ev: &Evaluations<Fr, Fr>, ps: &[Proof<G1Affine>]) -> Outcome3 {
     let groups = crate::generic::group(qs);
     if groups.len() != ps.len() {
         return Outcome3::Refuse;
@@ -763,7 +786,7 @@ pub fn individual_checks(vk: &VerifierKey<G1Affine>, cs: &[CommS], qs: &QuerySet
                 _ => return Outcome3::Refuse,
             }
         }
-        let proof = p.to_proof();
+        let proof = p.clone();
         match guarded(|| PC::check(vk, &sub, pt, vals.iter().cloned(), &proof, &mut sp, None)) {
             Ok(Ok(true)) => {}
             Ok(Ok(false)) => {
